@@ -351,10 +351,17 @@ def isStr : Val → Bool
   | .str _ => true
   | _ => false
 
+def hasIdentity : Val → Bool
+  | .err _ => true
+  | .clo _ _ _ => true
+  | _ => false
+
 /-- `+ - <` with the coercions of primitives; functions as operands are outside the fragment -/
 def binVal (op : BinOp) (a b : Val) : M Val :=
   match op with
-  | .seq => retM (.bool (strictEq a b))
+  | .seq =>
+    -- engine errors and closures have an identity that the values of this semantics do not carry
+    if hasIdentity a || hasIdentity b then stuckM "binVal" else retM (.bool (strictEq a b))
   | .add =>
     if isStr a || isStr b then
       match toStr a, toStr b with
